@@ -190,15 +190,89 @@ def e3(chk, op):
                 f"image variable dims {dims} and the first dimension {consed!r} of all {nvars} per-line variables tie the header line count to the number of parsed records",
                 f"image variable dims {dims} vs per-line dimension {consed!r}: a short read no longer conflicts with the declared shape", key="rows-tie",
                 sample={"image dims": dims, "per-line dim": consed})
-    tm = md.func("transform_metadata")
-    txt = " ".join(norm(s) for s in tm.node.body)
-    chk.require("shape = extract_shape(header)" in txt or "extract_shape(header)" in txt, "C18-E3", f"{md.relpath}:transform_metadata",
-                "the image shape comes from the header", "the image shape no longer comes from the header", key="shape-from-header")
-    # per-line variables are built from all parsed records
-    ok = any(isinstance(c.func, ast.Name) and c.func.id == "transform_line_metadata" and c.args and norm(c.args[0]) == "metadata" for c in calls_in(tm))
-    chk.require(ok, "C18-E3", f"{md.relpath}:transform_metadata", "per-line variables are built from the full list of parsed records",
-                "per-line variables are not built from the parsed records list", key="lines-from-records")
+    # transform_metadata by shape inference on (header record, n_lines parsed line records): the declared shape is the header's
+    # own line / pixel count, untouched by the records; byte ranges and per-line variables cover every parsed record
+    from ..poly import Poly
+    from ..shapes import Interp, Leaf, ListOf, ShapeError, _Raise, shape_of_con
+    L_ = Layouts(repo)
+    I = Interp(repo)
+    where_tm = f"{md.relpath}:transform_metadata"
+    n_lines = Poly.sym("n_lines")
+    for rec_name in ("signal", "processed"):
+        try:
+            out = I.call(I.resolve_global(md, "transform_metadata"), [shape_of_con(L_.con("image_descriptor")), ListOf(shape_of_con(L_.con(rec_name)), n_lines)], {})
+        except (_Raise, ShapeError, RecursionError) as e:
+            raise AnalysisError(f"{where_tm}: shape inference fails ({str(e)[:100]}); the origin of the declared shape is not decided")
+        if not (isinstance(out, TupS) and len(out.elts) == 2 and isinstance(out.elts[1], DictS)):
+            raise AnalysisError(f"{where_tm}: result is not (group, array metadata): {out!r:.80}")
+        am = out.elts[1]
+        shape = am.items.get("shape")
+        if not (isinstance(shape, (TupS, ListLit)) and len(shape.elts) == 2):
+            raise AnalysisError(f"{where_tm}: array metadata 'shape' is {shape!r:.80}; not decided")
+        want = ("number_of_lines_per_dataset", "number_of_data_groups_per_line")
+        for axis, (x, field) in enumerate(zip(shape.elts, want)):
+            is_field = isinstance(x, Leaf) and bool(x.src) and x.src[-1] == field
+            plain = is_field and not x.ops and not x.also
+            from_records = any(lf.src and lf.src[0] in ("data", "record_start", "preamble") for lf in I.leaves(x)) or isinstance(x, SConst)
+            if not plain and not from_records and not is_field:
+                got = _declared_shape_on_model(repo, md)
+                if got is None:
+                    raise AnalysisError(f"{where_tm}: axis {axis} of the declared shape is {x!r:.80}; its origin is not decided")
+                chk.require(got == (6, 5), "C18-E3", where_tm, "the declared image shape is the header's (6 x 5) when 4 records were parsed (model evaluation)",
+                            f"for a header declaring 6 lines x 5 samples and 4 parsed records the declared shape is {got}: it follows the parsed records, so a short read no longer conflicts with it",
+                            key=f"shape-from-header:{axis}")
+                continue
+            chk.require(plain, "C18-E3", where_tm, f"axis {axis} of the declared image shape is the header's {field} ({rec_name} records)",
+                        f"axis {axis} of the declared image shape is {x!r:.90}, not the header's {field} as it stands: the declared shape can follow the parsed records, and a short read no longer conflicts with it",
+                        key=f"shape-from-header:{axis}")
+        br = am.items.get("byte_ranges")
+        if not isinstance(br, ListOf):
+            raise AnalysisError(f"{where_tm}: byte_ranges is {br!r:.80}; not decided")
+        chk.require(br.n == n_lines and not br.maybe_empty, "C18-E3", where_tm, f"one byte range per parsed record ({rec_name})",
+                    f"byte_ranges holds {br.n} entries for {n_lines} parsed records", key="ranges-from-records")
+        g = out.elts[0]
+        data = g.fields.get("data") if isinstance(g, Obj) else None
+        if not isinstance(data, DictS):
+            raise AnalysisError(f"{where_tm}: no group of per-line variables in the result")
+        short_vars = []
+        for name, v in data.items.items():
+            if isinstance(v, Obj) and v.cls == "Variable":
+                d = v.fields.get("data")
+                if isinstance(d, ListOf):
+                    if d.n != n_lines:
+                        short_vars.append(f"{name}: {d.n}")
+                else:
+                    raise AnalysisError(f"{where_tm}: per-line variable {name} holds {d!r:.60}; its length is not decided")
+        chk.require(not short_vars, "C18-E3", where_tm, f"per-line variables are built from the full list of parsed records ({rec_name})",
+                    f"per-line variables do not have one entry per parsed record: {short_vars[:3]}", key="lines-from-records")
     return bool(tie)
+
+
+def _declared_shape_on_model(repo, md):
+    """transform_metadata evaluated on a model header (6 lines x 5 samples) and 4 parsed records, with the per-line and header
+    attribute conversions stubbed: the declared shape as a tuple of ints, or None when the evaluation does not get there"""
+    from collections import OrderedDict
+    from ..shapes import Const as SConst, DictS, Fn, Interp, ListLit, Obj, ShapeError, TupS, _Raise
+    I = Interp(repo)
+    sc = I.module_scope(md)
+    group = Obj("Group", OrderedDict(path=SConst("/"), url=SConst(None), data=DictS(), attrs=DictS()))
+    sc.vars["transform_line_metadata"] = Fn("py", impl=lambda I_, a, kw: group, name="transform_line_metadata")
+    sc.vars["extract_attrs"] = Fn("py", impl=lambda I_, a, kw: DictS(), name="extract_attrs")
+    header = DictS(OrderedDict(prefix_suffix_data_locators=DictS(OrderedDict(sar_data_format_type_code=SConst("IU2"))),
+                               sar_related_data_in_the_record=DictS(OrderedDict(number_of_lines_per_dataset=SConst(6), number_of_data_groups_per_line=SConst(5)))))
+    records = ListLit([DictS(OrderedDict(data=DictS(OrderedDict(start=SConst(920 + 100 * i), stop=SConst(1000 + 100 * i))))) for i in range(4)])
+    try:
+        out = I.call(I.resolve_global(md, "transform_metadata"), [header, records], {})
+    except (_Raise, ShapeError, RecursionError):
+        return None
+    if not (isinstance(out, TupS) and len(out.elts) == 2 and isinstance(out.elts[1], DictS)):
+        return None
+    shape = out.elts[1].items.get("shape")
+    if isinstance(shape, SConst) and isinstance(shape.v, tuple):
+        return shape.v
+    if isinstance(shape, (TupS, ListLit)) and all(isinstance(x, SConst) for x in shape.elts):
+        return tuple(x.v for x in shape.elts)
+    return None
 
 
 def e8(chk, op):
